@@ -213,6 +213,7 @@ class Case(object):
         if not isinstance(cls, ClassV):
             raise Unsupported('class %s not found in %s' % (self.clsname, self.modfile))
         self.cls = cls
+        self.st_loaded = st.fork()
         # configuration
         self.M = z3.Const('maxsize', INT)
         self.P = z3.Const('purge', BOOL)
@@ -873,6 +874,35 @@ def obligations_management(case):
             for (nm, gl) in case.same_state(pre, post):
                 if nm in ('stats', 'queue', 'counter'):
                     ob('C08', 'frame[%s]' % nm, gl)
+    return obs
+
+
+def obligations_rounding(case):
+    """__init__: the key path rounds with simple_round(tol) unless deep, then with deep_round(tol); the rounded
+    function is the identity pair function (args, kwds)  [C12]"""
+    I = case.I
+    obs = []
+    fn = '%s.__init__' % case.qual
+    for deep in (False, True):
+        case.round_kind = case.round_tol = None
+        st = case.st_loaded.fork()
+        st.assume(case.M >= 1, IGN != NoneC)
+        cache_ref = kcache.new_cache(I, st, case.kcls)
+        kw = {'cache': cache_ref, 'keymap': case.keymap, 'ignore': Opaque(IGN), 'tol': Opaque(TOL), 'deep': BoolV(deep)}
+        if case.policy not in ('no', 'inf'):
+            kw['maxsize'] = IntV(case.M)
+            kw['purge'] = BoolV(case.P)
+        I.cur_func = fn
+        try:
+            res = I.call(st, case.cls, CallArgs([], kw))
+            ok = len(res) == 1 and not isinstance(res[0][1], Exc)
+        except Unsupported as e:
+            ok = False
+        kind, tol = getattr(case, 'round_kind', None), getattr(case, 'round_tol', None)
+        good = ok and kind == ('deep' if deep else 'simple') and isinstance(tol, Opaque) and tol.term.eq(TOL)
+        obs.append(Obligation('%s/rounding.%s' % (fn, 'deep_round(tol)_when_deep' if deep else 'simple_round(tol)_by_default'),
+                              [], z3.BoolVal(bool(good)), prop='C12', func=fn, path='deep=%s' % deep,
+                              info={'case': case.qual, 'op': 'init'}))
     return obs
 
 
